@@ -7,6 +7,7 @@ import (
 	"context"
 	"errors"
 	"fmt"
+	"sort"
 	"time"
 
 	"github.com/gopcua/opcua/uacp"
@@ -33,7 +34,10 @@ type c05Run struct {
 	SegMode    int        `json:"seg_mode"`
 	Latency    string     `json:"latency"`
 	Frames     []c05Frame `json:"frames"`
-	EOFAt      int        `json:"eof_at"` // byte offset in the stream after which the peer closes (-1: after all)
+	EOFAt      int        `json:"eof_at"`               // byte offset in the stream after which the peer closes (-1: after all)
+	Cuts       []int      `json:"write_cuts,omitempty"` // the peer issues one Write per piece between these offsets
+	Gap        string     `json:"write_gap,omitempty"`  // fake time the peer sleeps between two writes
+	gap        time.Duration
 	stream     []byte
 	lat        time.Duration
 }
@@ -137,6 +141,25 @@ func (r *c05Run) Setup(s *sim.Sim) {
 				r.EOFAt = 0
 			}
 		}
+	}
+	// the peer's own write boundaries: one write, or several writes cut at
+	// arbitrary offsets (inside headers, at frame boundaries) with a pause
+	if len(r.stream) > 1 && p.Chance(1, 2) {
+		k := 1 + p.Intn(4)
+		for i := 0; i < k; i++ {
+			if p.Chance(1, 3) { // at a frame boundary +- a few bytes
+				off := 0
+				for _, f := range r.Frames[:p.Intn(len(r.Frames))+1] {
+					off += f.Len
+				}
+				r.Cuts = append(r.Cuts, off-4+p.Intn(9))
+			} else {
+				r.Cuts = append(r.Cuts, 1+p.Intn(len(r.stream)-1))
+			}
+		}
+		sort.Ints(r.Cuts)
+		r.gap = sim.Pick(p, 0, 0, time.Microsecond, 5*time.Millisecond, 2*time.Second)
+		r.Gap = r.gap.String()
 	}
 	s.Net.DefSegMode = r.SegMode
 	s.Net.DefLatency = r.lat
@@ -245,7 +268,18 @@ func (r *c05Run) Main(s *sim.Sim) {
 	if r.EOFAt >= 0 {
 		cut = r.EOFAt
 	}
-	peer.Write(stream[:cut])
+	prev := 0
+	for _, c := range r.Cuts {
+		if c <= prev || c >= cut {
+			continue
+		}
+		peer.Write(stream[prev:c])
+		prev = c
+		if r.gap > 0 {
+			time.Sleep(r.gap)
+		}
+	}
+	peer.Write(stream[prev:cut])
 	if r.EOFAt >= 0 {
 		peer.Close()
 	}
